@@ -447,7 +447,8 @@ Proof.
       induction l as [|x l IH]; cbn [sorted_amounts fold_right bden]; [reflexivity|].
       fold (sorted_amounts l). rewrite Hins, IH. unfold at_comm. ring. }
     destruct b as [|x [|y b]].
-    + intros [= <-]. reflexivity.
+    + intros [= <-]. cbn [fold_right den bden]. unfold at_comm, amt_of_Z. cbn [aq acomm].
+      destruct (comm_eqb _ _); reflexivity.
     + intros [= <-]. cbn [fold_right den bden]. unfold at_comm. ring.
     + intros [= <-]. cbn [den]. exact (Hsorted (x :: y :: b)).
 Qed.
